@@ -491,7 +491,9 @@ package http2
 
 //@ func AcquireHeaderField
 //@ props C03 C16
-//@ ensures fresh: r0 != nil && fresh(r0)
+//@ # a pooled object comes with buffers nobody else holds
+//@ ensures fresh: r0 != nil && fresh(r0) && (fresh(r0.key) || cap(r0.key) == 0) && (fresh(r0.value) || cap(r0.value) == 0) &&
+//@ |   bufsep(r0.key, r0.value) && bufsep(r0.value, r0.key)
 
 //@ func ReleaseHeaderField
 //@ props C03 C16
@@ -503,8 +505,6 @@ package http2
 //@ func (*HPACK).DynamicSize
 //@ props C03 C04
 //@ requires tbl: hpackOK(hp)
-//@ # entries are bounded by the frame size, so the 32-bit sum cannot wrap
-//@ requires small: tsize(hp, 0) < 4294967296
 //@ pure
 //@ loop 0: invariant acc: n + tsize(hp, rangeindex + 1) == tsize(hp, 0) && n >= 0
 //@ ensures sum: n == tsize(hp, 0)
@@ -512,7 +512,6 @@ package http2
 //@ func (*HPACK).shrink
 //@ props C03 C04
 //@ requires tbl: hpackOK(hp)
-//@ requires small: tsize(hp, 0) < 4294967296
 //@ # evicted entries go back to the pool: their fields are reset, nothing else about other fields is promised
 //@ modifies hp.dynamic, contents(hp.dynamic), family(HeaderField)
 //@ loop 0: invariant scan: 0 <= n && n <= len(hp.dynamic) && tableSize == tsize(hp, n) &&
@@ -529,7 +528,8 @@ package http2
 //@ func (*HPACK).addDynamic
 //@ props C03 C04
 //@ requires tbl: hpackOK(hp) && hf != nil
-//@ requires small: tsize(hp, 0) + len(hf.key) + len(hf.value) + 32 < 4294967296
+//@ requires small: len(hf.key) + len(hf.value) + 32 < 4294967296
+//@ requires sep: bufsep(hf.key, hf.value) && bufsep(hf.value, hf.key)
 //@ modifies hp.dynamic, capacity(hp.dynamic), family(HeaderField), anybytes()
 //@ opt noframe=elem
 //@ let ev = len(old(hp.dynamic)) + 1 - len(hp.dynamic)
@@ -541,7 +541,6 @@ package http2
 //@ func (*HPACK).SetMaxTableSize
 //@ props C04 C18
 //@ requires tbl: hpackOK(hp)
-//@ requires small: tsize(hp, 0) < 4294967296
 //@ modifies hp.maxTableSizeSettings, hp.maxTableSize, hp.pendingSizeUpdate, hp.dynamic, contents(hp.dynamic), family(HeaderField)
 //@ ensures limit: hp.maxTableSize == size && hp.maxTableSizeSettings == size
 //@ # a change of the limit has to be announced at the start of the next header block (RFC 7541 section 4.2)
